@@ -7,7 +7,7 @@ from oracles import killtrace as KT, path as P, kill as K
 ID = "C07"
 LEVEL = "exploration"
 FLAVORS = ["asan"]
-RULE = ("random trees and kill plugins with 0-3 scripted prekill hooks (patterns: literal, `*` components, `/`, non-matching), hook "
+RULE = ("random trees and kill plugins (in the base config or arriving as a drop-in action chain, with drop-in hooks) with 0-3 scripted prekill hooks (patterns: literal, `*` components, `/`, non-matching), hook "
         "completion after 0..6 polls or never, prekill_hook_timeout 0-5 s, tick steps in {0,0.5s,1s-1ns,1s,1s+1ns,1.5s,2s,3s}, kills that fail so the walk falls back to "
         "further victims, and victims removed / re-created at any tick of the wait; over the interleaved stream of hook events "
         "(fire/didFinish/destroy) and kill-boundary events the oracle requires: the hook fired for a victim is the first configured hook "
@@ -60,8 +60,32 @@ def cases(seed, tier):
                     ops.append(dict(op="mk", cg=r, **spec))
             ticks.append({"step_ns": rng.choice([0, 5 * 10**8, 10**9 - 1, 10**9, 10**9, 10**9 + 1, 15 * 10**8, 2 * 10**9, 3 * 10**9]), "ops": ops})
         cfg = KG.kill_config(plugin, args, extra, hooks=hooks)
+        order = [(h["args"]["id"], h["args"]["cgroup"]) for h in hooks]
+        if rng.random() < 0.3:
+            # the kill chain arrives as a drop-in (base disabled while it is there): it is a clone of the base ruleset, so it
+            # keeps the base's prekill_hook_timeout; hooks a drop-in brings along rank before the base hooks, newest first
+            rs = cfg["rulesets"][0]
+            chain = rs["actions"]
+            rs["actions"] = [W.act("basepre")]
+            rs["drop-in"] = {"actions": True, "disable-on-drop-in": True}
+            dcfg = {"rulesets": [{"name": "rk", "actions": chain}]}
+            dhooks = []
+            for h in range(rng.choice([0, 0, 1, 2])):
+                hid = "dh%d" % h
+                dhooks.append({"name": "v_hook", "args": {"id": hid, "cgroup": rng.choice(PATS)}})
+                hspec[hid] = [rng.choice([{"polls": 0}, {"polls": rng.randint(1, 5)}, {"polls": -1}]) for _ in range(4)]
+            ticks[0]["dropins"] = [{"op": "add", "tag": "k.json", "config": dcfg}]
+            if dhooks:
+                if rng.random() < 0.5:
+                    dcfg["prekill_hooks"] = dhooks
+                    order = [(h["args"]["id"], h["args"]["cgroup"]) for h in dhooks] + order
+                else:
+                    # a second, newer drop-in that only carries hooks
+                    ticks[0]["dropins"].append({"op": "add", "tag": "h.json", "config": {"rulesets": [], "prekill_hooks": dhooks}})
+                    order = [(h["args"]["id"], h["args"]["cgroup"]) for h in dhooks] + order
         scn = KG.base_scn(cid, cgs, cfg, ticks=ticks, kill=kill, hooks=hspec)
-        yield core.Case(cid, [scn], {"plugin": plugin, "args": args, "hooks": [(h["args"]["id"], h["args"]["cgroup"]) for h in hooks]})
+        yield core.Case(cid, [scn], {"plugin": plugin, "args": args, "hooks": order, "via_dropin": "dropins" in ticks[0],
+                                     "timeout": int(extra.get("prekill_hook_timeout", 5))})
 
 
 def expected_hook(hooks, victim):
@@ -96,6 +120,11 @@ def judge(case, results):
         now = e["t"]
         if k == "plugin" and e["m"] == "run" and e["id"] == "pre":
             deadline = e["ctx"]["deadline"]
+            want_dl = now + case.meta.get("timeout", 5) * 10**9
+            if deadline is None or abs(deadline - want_dl) > 1:
+                v.bad("window-length", "via-drop-in" if case.meta.get("via_dropin") else "", "tick %d: chain fired at t=%d with prekill deadline %s; the ruleset's prekill_hook_timeout is %ss => %d" % (
+                    tick, now, deadline, case.meta.get("timeout", 5), want_dl))
+                deadline = want_dl
             if outstanding:
                 v.bad("chain-restart-with-invocation", "", "tick %d: a new chain started while hook invocation %s was outstanding" % (tick, outstanding["inv"]))
             last = None
@@ -163,6 +192,8 @@ def judge(case, results):
                     last["failed"] = True
             elif k == "kill" and outstanding:
                 v.bad("signal-before-destroy", "", "tick %d: kill(%s) while hook invocation %d alive" % (tick, e["pid"], outstanding["inv"]))
+    if case.meta.get("via_dropin"):
+        v.count("kill_chain_from_drop_in")
     v.count("fires", fires)
     v.count("multi_tick_invocations", slow)
     v.count("attempts", attempts)
